@@ -262,6 +262,14 @@ func parseFile(args parseArgs) {
 			args.log.AddErrorWithNotes(nil, logger.Range{},
 				fmt.Sprintf("panic: %v (while parsing %q)", r, source.PrettyPaths.Select(args.options.LogPathStyle)),
 				[]logger.MsgData{{Text: helpers.PrettyPrintedStack()}})
+
+			// An injected file must always send on the "inject" channel, otherwise
+			// the main thread would wait for this injected file forever
+			if args.inject != nil {
+				args.inject <- config.InjectedFile{
+					Source: source,
+				}
+			}
 			args.results <- result
 		}
 	}()
